@@ -210,7 +210,9 @@ def gen_span(rng):
 
 
 NON_TIME = ["3 m", "2 kg", "(1 m/s)", "1 s^2", "1 Hz", "(1 m / 1 m)", "5 A", "1 K", "(1/2) m", "2.5 kg", "(1 s / 1 s)",
-            "1 J", "(3 m * 1 s)", "1 s^-1", "(1 s)^2", "60 km/h", "1 mol", "1 cd"]
+            "1 J", "(3 m * 1 s)", "1 s^-1", "(1 s)^2", "60 km/h", "1 mol", "1 cd",
+            # zero base-unit magnitude: still not a time span
+            "0 m", "0.0 kg", "(0/3) J", "(3 m - 3 m)", "(2 km - 2000 m)", "(0-273.15) degC", "0 dozen", "0 K", "(0 m / 1 s)", "0 s^2"]
 
 
 def gen_days(rng, base_dt):
@@ -300,7 +302,7 @@ HOW = "PYTHONPATH=/repo/src HOME=<empty dir> python -c 'from ka.interpret import
 # ---------------------------------------------------------------------------------------------
 # the check
 # ---------------------------------------------------------------------------------------------
-def check(ctx):
+def _check_main(ctx):
     rng, R = ctx.rng, ctx.real
     T = R.types
     canon = make_canon(R)
@@ -725,3 +727,11 @@ def replay(ctx, data):
     if still:
         print("VIOLATION property=C17 replay reproduces")
     return 1 if still else 0
+
+
+
+def check(ctx):
+    _check_main(ctx)
+    # shared oracle: operators return new values, operands bound to variables are never updated in place
+    import alias_common
+    alias_common.run(ctx, prefix="alias")
